@@ -4,7 +4,7 @@
    and the evaluator only copy the stamps of the tokens, which the
    correspondence check exercises (see the level note). *)
 From Plush Require Import model.Bytes model.Lexer model.Ast model.Parser model.Value model.Eval
-  proofs.LexerProofs proofs.LexerEquiv proofs.EvalProofs.
+  proofs.LexerProofs proofs.LexerEquiv proofs.EvalProofs proofs.StmtProofs.
 
 (* starting the line counter k higher raises the line stamp of every token by
    exactly k and changes nothing else: kinds, literals, number of tokens and
@@ -63,3 +63,23 @@ Theorem C15_failing_block_keeps_statement : forall G fuel st ss k st1,
   eval_stmts G fuel st ss [] = RErr k st1 -> eval_block G (S fuel) st (Block ss) = RErr k st1.
 Proof. exact block_error_keeps_stmt. Qed.
 Print Assumptions C15_failing_block_keeps_statement.
+
+(* ---- the blamed statement as an invariant of every evaluation (proofs/StmtProofs.v) ----
+   For every environment, fuel, state and expression: an evaluation that
+   succeeds leaves the current statement as it found it, whatever blocks,
+   loops, function bodies, helper blocks, partials and TOLERATED failures
+   occurred on the way.  An error raised later in the same tag is therefore
+   reported at that tag's own line (C15_runtime_error_line), never at a
+   statement of something that had already completed. *)
+Theorem C15_success_keeps_the_blamed_statement : forall G fuel st e v st1,
+  eval G fuel st e = ROk (v, st1) -> sstmt st1 = sstmt st.
+Proof. exact eval_ok_keeps_statement. Qed.
+Print Assumptions C15_success_keeps_the_blamed_statement.
+
+Theorem C15_function_call_keeps_the_blamed_statement : forall G fuel st ps body args v st1,
+  user_call G fuel st ps body args = ROk (v, st1) -> sstmt st1 = sstmt st.
+Proof. exact user_call_ok_keeps_statement. Qed.
+
+Theorem C15_partial_keeps_the_blamed_statement : forall G fuel st name data ctx v st1,
+  partial_call G fuel st name data ctx = ROk (v, st1) -> sstmt st1 = sstmt st.
+Proof. exact partial_ok_keeps_statement. Qed.
